@@ -125,6 +125,8 @@ def _work(job):
         unk = [ob for ob in obs if ob.query is not None and ob.query.status not in ("sat", "unsat")]
         rec = {"name": name, "clause": obs[0].clause, "kind": obs[0].kind, "paths": len(obs), "secs": round(sum(q.secs for q in qs), 3),
                "backends": sorted({q.backend for q in qs}) or ["simplifier"], "status": "discharged"}
+        if qs and len([r for r in out["obligations"] if r.get("smt2_sample")]) < 2 and obs[0].kind in ("ensures", "call-pre", "invariant", "loop", "cut"):
+            rec["smt2_sample"] = qs[0].text[:2500]       # one path query of this obligation, as given to the solver (evidence sample)
         dis = [ob for ob in obs if ob.query is not None and getattr(ob.query, "cross", None) == "sat"]
         if os.environ.get("VERIF_CROSS") == "1":
             rec["second_backend"] = {"confirmed": sum(1 for q in qs if getattr(q, "cross", None) == "unsat"),
@@ -206,6 +208,9 @@ def report(ck, results, select=None, replayer=None, rename=None, also_used=()):
                 lock = set(lock) | {full}
             backend = "+".join(rec["backends"])
             if rec["status"] == "discharged":
+                if rec.get("smt2_sample") and len(ck.samples) < 4:
+                    ck.samples.append({"obligation": full, "clause": rec["clause"], "path_queries": rec["paths"], "backend": backend,
+                                       "one_path_query_smt2": rec["smt2_sample"]})
                 ck.ob(name, "discharged", backend=backend, secs=rec["secs"], clause=rec["clause"], queries=rec["paths"],
                       detail={"second_backend": rec["second_backend"]} if rec.get("second_backend") else None)
                 continue
